@@ -192,3 +192,97 @@ def node_shape(n):
 
 def shape_of_cell(c):
     return {'A': 'atom', 'P': 'predication'}.get(c[0], 'opaque')
+
+# ---------------------------------------------------------------------------
+# witness-aware diagnosis (modal / first-order): a branch prefix is satisfied by M if some
+# assignment of the constants and worlds M does not know to constants / worlds of M makes
+# every node true ("M with witnesses").
+
+def _rename(s, cmap):
+    k = s[0]
+    if k == 'A':
+        return s
+    if k == 'P':
+        return ('P', s[1], tuple(cmap.get(p, p) for p in s[2]))
+    if k == 'O':
+        return ('O', s[1], tuple(_rename(x, cmap) for x in s[2]))
+    return ('Q', s[1], s[2], _rename(s[3], cmap))
+
+def satisfiable_in(sem, model, nodes, cap=3000):
+    """True/False, or None if the witness space exceeds `cap`."""
+    sents = []
+    access = []
+    newc, neww = [], []
+    for n in nodes:
+        if isinstance(n, ClosureNode):
+            return False        # a closed branch is satisfied by nothing
+        if isinstance(n, AccessNode):
+            access.append((n['world1'], n['world2']))
+            for w in access[-1]:
+                if w not in model.worlds and w not in neww:
+                    neww.append(w)
+        elif isinstance(n, SentenceNode):
+            s = lexgen.to_ast(n['sentence'])
+            w = n.get('world') or 0
+            sents.append((s, w, n.get('designated')))
+            if w not in model.worlds and w not in neww:
+                neww.append(w)
+            for c in refsem.constants_of(s):
+                if c not in model.consts and c not in newc:
+                    newc.append(c)
+    if newc and not model.consts:
+        return False
+    space = (len(model.consts) ** len(newc)) * (len(model.worlds) ** len(neww))
+    if space > cap:
+        return None
+    for cs in itertools.product(model.consts, repeat=len(newc)):
+        cmap = dict(zip(newc, cs))
+        for ws in itertools.product(model.worlds, repeat=len(neww)):
+            wmap = dict(zip(neww, ws))
+            ok = True
+            for (a, b) in access:
+                if (wmap.get(a, a), wmap.get(b, b)) not in model.R:
+                    ok = False
+                    break
+            if not ok:
+                continue
+            for s, w, d in sents:
+                try:
+                    v = sem.eval(_rename(s, cmap) if cmap else s, model, wmap.get(w, w))
+                except KeyError:
+                    ok = False
+                    break
+                if (v == 'T') if d is None else (sem.is_designated(v) == bool(d)):
+                    continue
+                ok = False
+                break
+            if ok:
+                return True
+    return False
+
+def unsound_ext(sem, tab, model, cap=3000):
+    "Like unsound(), for arguments whose proofs introduce witnesses."
+    def sat_any(t):
+        unknown = False
+        for pre in prefixes_at(tab, t):
+            r = satisfiable_in(sem, model, pre, cap)
+            if r:
+                return True
+            if r is None:
+                unknown = True
+        return None if unknown else False
+    r0 = sat_any(0)
+    if r0 is False:
+        return 'trunk'
+    if r0 is None:
+        return 'undiagnosed'
+    for t in range(1, len(tab.history) + 1):
+        r = sat_any(t)
+        if r is None:
+            return 'undiagnosed'
+        if r is False:
+            entry = tab.history[t - 1]
+            if getattr(entry.rule, 'closure', False):
+                return 'closure=' + rule_id(entry.rule)
+            return 'rule=' + rule_id(entry.rule)
+    return 'undiagnosed'
